@@ -175,7 +175,7 @@ func (x *runner) scenarioSpecificChecks(stage string) {
 				evs := x.nodeEvents(n.Name, c.ID)
 				sentForbidden := false
 				for _, e := range evs {
-					if e.Dir == "out" && e.Cmd == "headers" && coversHeight(e.Info, int32(ns.ForbiddenAt)) {
+					if e.Dir == "out" && e.Cmd == "headers" && strings.Contains(e.Info, "[marked]") {
 						sentForbidden = true
 					}
 				}
@@ -189,7 +189,7 @@ func (x *runner) scenarioSpecificChecks(stage string) {
 			if delivered {
 				x.count("forbidden_header_delivered", 1)
 				if s.Engine == "legacy" && stage == "end" {
-					// ban observed by effect: with a long ban no later connection of that host may carry a getheaders
+					// ban observed by effect: with a long ban no later connection of that host may stay admitted
 					conns := n.Conns()
 					later := 0
 					asked := 0
@@ -197,13 +197,31 @@ func (x *runner) scenarioSpecificChecks(stage string) {
 					for _, c := range conns {
 						evs := x.nodeEvents(n.Name, c.ID)
 						for _, e := range evs {
-							if e.Dir == "out" && e.Cmd == "headers" && coversHeight(e.Info, int32(ns.ForbiddenAt)) && firstSender == 0 {
+							if e.Dir == "out" && e.Cmd == "headers" && strings.Contains(e.Info, "[marked]") && firstSender == 0 {
 								firstSender = c.ID
 							}
 						}
 					}
+					// "later" = accepted after the offender's connection was closed (connections of the same host that were
+					// already open when the ban was pronounced stay: the ban is about admission)
+					closedAt := int64(-1)
+					for _, e := range x.nodeEvents(n.Name, firstSender) {
+						if e.Dir == "close" && closedAt < 0 {
+							closedAt = int64(e.Seq)
+						}
+					}
 					for _, c := range conns {
-						if c.ID <= firstSender {
+						if c.ID <= firstSender || closedAt < 0 {
+							continue
+						}
+						acceptedAt := int64(-1)
+						for _, e := range x.nodeEvents(n.Name, c.ID) {
+							if e.Dir == "conn" {
+								acceptedAt = int64(e.Seq)
+								break
+							}
+						}
+						if acceptedAt < closedAt {
 							continue
 						}
 						later++
